@@ -206,7 +206,7 @@ impl Check for C12Check {
             Phase::exhaustive("numbers", n * n).with_chunk(1024),
             Phase::exhaustive("strings", s * s + b * b + 25 + 16).with_chunk(128),
             Phase::exhaustive("cross-type", c * c).with_chunk(64),
-            Phase::random("random", tier.pick(40_000, 1_000_000), 64).with_min_tape(16).with_chunk(1024),
+            Phase::random("random", tier.pick(200_000, 2_000_000), 64).with_min_tape(16).with_chunk(1024),
         ]
     }
     fn run(&self, _tier: Tier, phase: usize, input: &Input, ctx: &mut CaseCtx) {
